@@ -267,10 +267,25 @@ func (w *tworld) settle() {
 	w.viol = append(w.viol, w.led.Quiesce()...)
 	// everything the Transport wrote has been read: its own idea of the connection send window is the peer's
 	if !w.led.Terminal() && !w.led.ConnClosed && !w.led.PeerViolated && len(w.viol) == 0 {
-		if f := http2.VerifC12TransportSnapshot(w.cc); int64(f.ConnOut) != w.led.ConnSend {
+		f := http2.VerifC12TransportSnapshot(w.cc)
+		if !f.Valid {
+			w.lockedUp()
+		} else if int64(f.ConnOut) != w.led.ConnSend {
 			w.viol = append(w.viol, ledger.Violation{Kind: "send-window-accounting", Msg: fmt.Sprintf("with nothing in flight the Transport believes it may send %d more bytes on the connection, the window the peer granted minus the DATA it received leaves %d: %d bytes of send window are lost to the Transport (queued data will wait for window that is there)", f.ConnOut, w.led.ConnSend, w.led.ConnSend-int64(f.ConnOut))})
 		}
 	}
+}
+
+// lockedUp: with every goroutine quiescent the connection mutex of the Transport is still held.
+func (w *tworld) lockedUp() {
+	for _, v := range w.viol {
+		if v.Kind == "deadlock" {
+			return
+		}
+	}
+	wt := mutexWaiters()
+	w.viol = append(w.viol, ledger.Violation{Kind: "deadlock", Cause: "a mutex of the connection is never released",
+		Msg: "with every goroutine of the Transport blocked its connection mutex is held and never released (the connection can do nothing any more); waiting for a mutex: " + wt})
 }
 
 func (w *tworld) handshake(iws int64) {
@@ -398,6 +413,11 @@ func (w *tworld) shutdown() {
 	for _, r := range w.reqs {
 		close(r.bodyCmd)
 		close(r.rcmd)
+	}
+	for _, v := range w.viol {
+		if v.Kind == "deadlock" {
+			return // the connection mutex is held for good: Close would wait for it too
+		}
 	}
 	w.cc.Close()
 	synctest.Wait()
@@ -569,6 +589,9 @@ func (w *tworld) key() string {
 		r.mu.Unlock()
 	}
 	f := http2.VerifC12TransportSnapshot(w.cc)
+	if !f.Valid {
+		w.lockedUp()
+	}
 	fmt.Fprintf(&b, "#cc %d %d %d %d %d|", f.ConnOut, f.ConnInAvail, f.ConnInUnsent, f.MaxFrameSize, f.InitialSend)
 	for _, s := range f.Streams {
 		fmt.Fprintf(&b, "%d:%d %d %d %d|", s.ID, s.Out, s.InAvail, s.InUnsent, s.BodyLen)
@@ -582,7 +605,14 @@ func trun(t *testing.T, cfg tconfig, seq []act, keepTrace bool) (res result) {
 	br := runBubble(t, func() {
 		w := newTWorld(cfg)
 		w.keepTrace = keepTrace
-		defer w.shutdown()
+		defer func() {
+			w.shutdown()
+			if wt := mutexWaiters(); wt != "" {
+				res.viol = append(res.viol, ledger.Violation{Kind: "deadlock", Cause: "a mutex of the connection is never released",
+					Msg: "after the connection was closed, every request cancelled and a minute had passed, goroutines of the Transport still wait for a mutex nobody will release: " + wt})
+				res.hung = true
+			}
+		}()
 		w.prelude()
 		if len(w.viol) == 0 {
 			for i, a := range seq {
@@ -617,7 +647,13 @@ func trun(t *testing.T, cfg tconfig, seq []act, keepTrace bool) (res result) {
 		res.viol = append(res.viol, ledger.Violation{Kind: "panic", Msg: fmt.Sprintf("panic: %v\n%s", br.Panic, br.Stack)})
 	}
 	if br.Deadlock != "" {
-		res.harness = "goroutines blocked forever at the end of the execution: " + br.Deadlock
+		locked := false
+		for _, v := range res.viol {
+			locked = locked || v.Kind == "deadlock"
+		}
+		if !locked { // (a reported lock-up leaves its goroutines behind when the bubble ends: that is the finding, not a harness fault)
+			res.harness = "goroutines blocked forever at the end of the execution: " + br.Deadlock
+		}
 	}
 	if br.Hang != "" {
 		res.viol = append(res.viol, ledger.Violation{Kind: "deadlock", Cause: br.Hang,
